@@ -34,7 +34,7 @@ class Calls:
                      'is_none', 'hashable', 'callraises', 'call', 'fresh_obj', 'is_int_key', 'int_key', 'ite', 'attr',
                      'has_attr', 'catches', 'exc_is', 'iff', 'dynattr', 'truthy', 'key_at', 'idx_of', 'old', 'is_fresh',
                      'seq_of', 'card', 'same_elements', 'typeof', 'callv', 'callvraises', 'isinst_dyn', 'lt', 'unhashable_any',
-                     'mhas', 'mget', 'shas', 'without_key', 're_compile_raises', 're_compile', 'as_map', 'as_seq', 'as_set', 'sat', 'slen', 'mlen', 'methraises', 'methcall', 'gen_of', 'nth_where', 'count_where', 'ghost', 'zlen', 'isfinite', 'ret_make_converter', 'ret_into_data', 'ret', 'retc', 'clsref', 'id_of', 'fnref', 'called', 'hash_of', 'forall_bools4', 'methv', 'getattr', 'kept_seq', 'get_origin', 'get_args', 'callraises_as', 'isabstract', 'issub'}
+                     'mhas', 'mget', 'shas', 'without_key', 're_compile_raises', 're_compile', 'as_map', 'as_seq', 'as_set', 'sat', 'slen', 'mlen', 'methraises', 'methcall', 'gen_of', 'nth_where', 'count_where', 'ghost', 'zlen', 'isfinite', 'ret_make_converter', 'ret_into_data', 'ret', 'retc', 'clsref', 'attr_named', 'id_of', 'fnref', 'called', 'hash_of', 'forall_bools4', 'methv', 'getattr', 'kept_seq', 'get_origin', 'get_args', 'callraises_as', 'isabstract', 'issub'}
 
     # ------------------------------------------------------------------------------------
     def ev_Call(self, node, st):
@@ -104,6 +104,17 @@ class Calls:
                 stars = vs[1 + len(kws_named):]
                 return self.call_star(f, seq, named, stars, s, node)
             return self.bind(self.evs([node.args[0].value] + [k.value for k in kws_named] + [k.value for k in kws_star], st), k)
+        if node.args and not any(isinstance(a, ast.Starred) for a in node.args) and any(k.arg is None for k in node.keywords):
+            kws_named = [k for k in node.keywords if k.arg is not None]
+            kws_star = [k for k in node.keywords if k.arg is None]
+            npos = len(node.args)
+
+            def k(vs, s):
+                pos = VTuple(tuple(vs[:npos]))
+                named = {kw.arg: v for kw, v in zip(kws_named, vs[npos:npos + len(kws_named)])}
+                stars = vs[npos + len(kws_named):]
+                return self.call_star(f, pos, named, stars, s, node)
+            return self.bind(self.evs(list(node.args) + [k.value for k in kws_named] + [k.value for k in kws_star], st), k)
         if not node.args and len(node.keywords) >= 1 and any(k.arg is None for k in node.keywords):
             kws_named = [k for k in node.keywords if k.arg is not None]
             kws_star = [k for k in node.keywords if k.arg is None]
@@ -119,7 +130,28 @@ class Calls:
         th = self.th
         if isinstance(f, VBuiltin) and f.name == 'spec.callv':
             pass
-        if isinstance(seq, VTuple) and not stars:
+        if isinstance(f, VBuiltin) and f.name == 'dataclasses.replace' and isinstance(seq, VTuple) and len(seq.items) == 1 and len(stars) == 1 \
+                and not named:
+            # dataclasses.replace(obj, **changes): functional record update (assumed stdlib contract)
+            obj, ch = seq.items[0], stars[0]
+            cname = (obj.cls if isinstance(obj, VVal) and obj.cls else None) or self.cur_class
+            fl = self.idx.dataclass_fields(cname) if cname and cname in self.idx.classes else None
+            if fl is None or not isinstance(ch, (VMapB, VVal)):
+                raise OutOfSubset('dataclasses.replace on an unknown record class', node)
+            has, get = (ch.has, ch.get) if isinstance(ch, VMapB) else (th.m_hasA(ch.term), th.m_getA(ch.term))
+            ov = self.toVal(obj, st)
+            r = th.fresh('replaced')
+            facts = [r != th.NoneV, th.isc(cname)(r), th.type_of(r) == th.type_of(ov)]
+            for n_, _m in fl:
+                kt = th.strc(n_)
+                facts.append(th.fld(n_)(r) == z3.If(z3.Select(has, kt), z3.Select(get, kt), th.fld(n_)(ov)))
+            st.add(*facts)
+            return [(VVal(r, fresh=True, kind='rec', cls=cname), st)]
+        if isinstance(f, VBuiltin) and f.name.startswith('supermeth.'):
+            return [(self.none(), st)]
+        if isinstance(f, VBuiltin) and f.name == 'dataclasses.replace':
+            pass
+        elif isinstance(seq, VTuple) and not stars:
             return self.call_sv(f, list(seq.items), named, st, node)
         if isinstance(f, VFunc) and seq is not None and not stars and f.node.args.vararg is not None \
                 and not (f.node.args.posonlyargs + f.node.args.args)[(1 if (f.self_sv is not None and not self.is_staticmethod(f.node)) else 0):]:
